@@ -387,6 +387,11 @@ func runC08(c *eng.Ctx) {
 	nSent := ruleSentinelIdentity(c, "R14.6", []string{cl + "(*Reader).ReadMessage"}, "the reader does not notice that the segment it was reading was replaced by the cleaner: it fails instead of re-opening at its position in the rewritten segment")
 	c.Check(nSent >= 2, "Reader.ReadMessage recognises replaced segments", "", "comparisons with ErrSegmentReplaced / ErrCommitLogReadonly found", "Reader.ReadMessage no longer tells a replaced segment apart")
 
+	// ---- R14.6 (shared) the scanners' end-of-segment sentinel reaches the compactor's identity tests unwrapped (else a complete
+	// scan is reported as a failed one and compaction never succeeds)
+	nScan := ruleSentinelIdentity(c, "R14.6", []string{cl + "(*compactCleaner).compact", cl + "(*compactCleaner).cleanSegment", cl + "(*compactCleaner).scanSegments"}, "the compactor takes the regular end of a segment for a scan failure and aborts every pass")
+	c.Check(nScan >= 3, "the compactor's scan loops recognise the end of a segment", "", "identity comparisons with io.EOF resolved to the scanner", "fewer end-of-segment comparisons in the compactor than on the reference tree")
+
 	c.Rule("R08.6", "K2")
 	ruleReverseReaderSurvivesReplacement(c)
 
